@@ -58,6 +58,11 @@ type HandlerObs struct {
 	RespErr    error
 	CtxDoneAt  time.Duration // 0 = not observed
 	CtxErr     error
+	Waiting    bool          // the handler entered its delay
+	DelayEnd   time.Duration // the delay elapsed at (0 = the context ended first)
+	WaitedUntil time.Duration
+	DelayDone, CtxDone, CtxDoneInWait, WaitOver bool
+	StallInWait time.Duration
 	ExitEv     int64
 	Entries    int // number of times a handler was entered for this tag
 	Node       string
@@ -528,13 +533,22 @@ func (h *echoHandler) Handle(ctx context.Context, call *tchannel.InboundCall) {
 	delay, _ := strconv.ParseInt(cmd["delay"], 10, 64)
 	if delay > 0 {
 		t := time.NewTimer(time.Duration(delay))
+		obs.Waiting = true
+		st0 := simrt.Cur().StallTime
 		select {
 		case <-t.C:
+			obs.DelayEnd = simrt.Elapsed()
+			obs.DelayDone = true
 		case <-ctx.Done():
 			t.Stop()
 			obs.CtxDoneAt = simrt.Elapsed()
 			obs.CtxErr = ctx.Err()
+			obs.CtxDone = true
+			obs.CtxDoneInWait = true
 		}
+		obs.WaitedUntil = simrt.Elapsed()
+		obs.WaitOver = true
+		obs.StallInWait = simrt.Cur().StallTime - st0
 	}
 	resp := call.Response()
 	switch mode {
@@ -587,13 +601,14 @@ func (h *echoHandler) Handle(ctx context.Context, call *tchannel.InboundCall) {
 // watchCtx records when the handler's context ends after the response is done
 // (C14: a handler's context is cancelled when its response completes).
 func (h *echoHandler) watchCtx(ctx context.Context, obs *HandlerObs) {
-	if obs.CtxDoneAt != 0 {
+	if obs.CtxDone {
 		return
 	}
 	select {
 	case <-ctx.Done():
 		obs.CtxDoneAt = simrt.Elapsed()
 		obs.CtxErr = ctx.Err()
+		obs.CtxDone = true
 	default:
 	}
 }
